@@ -15,7 +15,9 @@ use rs_matter::dm::clusters::wifi_diag::{WifiDiag, WirelessDiag};
 use rs_matter::dm::networks::wireless::{NetCtlState, NetCtlWithStatusImpl, WifiNetworks};
 use rs_matter::dm::networks::NetChangeNotif;
 use rs_matter::utils::sync::DynBase;
-use rs_matter::dm::{endpoints, Node};
+use rs_matter::dm::clusters::groups::{ClusterHandler as _, GroupsHandler};
+use rs_matter::dm::devices::DEV_TYPE_ON_OFF_LIGHT;
+use rs_matter::dm::{endpoints, Async, ChainedHandler, Cluster, Dataver, Endpoint as DmEndpoint, EpClMatcher, Node};
 use rs_matter::error::{Error, ErrorCode};
 use rs_matter::im::{InteractionModel, WirelessInteractionModelState};
 use rs_matter::respond::DefaultResponder;
@@ -38,8 +40,15 @@ pub fn new_buffers() -> Box<MatterBuffers> {
     Box::new(MatterBuffers::new())
 }
 
+/// Endpoint 1: an application endpoint that carries only the Groups cluster (so that group
+/// membership - which lives in the fabric record - can be changed through the real handler).
+const CLUSTERS_EP1: &[Cluster<'static>] = &[GroupsHandler::CLUSTER];
+
 pub const DEVICE_NODE: Node<'static> = Node {
-    endpoints: &[root_endpoint!(wifi)],
+    endpoints: &[
+        root_endpoint!(wifi),
+        DmEndpoint::new(1, &[DEV_TYPE_ON_OFF_LIGHT], CLUSTERS_EP1),
+    ],
 };
 
 /// Outcome of bringing a device incarnation up.
@@ -86,7 +95,11 @@ pub async fn run_device<C: Crypto>(
 
     let handler = (
         DEVICE_NODE,
-        endpoints::WifiSysHandlerBuilder::new(&net_ctl, &net_ctl).build(rand),
+        ChainedHandler::new(
+            EpClMatcher::new(Some(1), Some(GroupsHandler::CLUSTER.id)),
+            Async(GroupsHandler::new(Dataver::new(7)).adapt()),
+            endpoints::WifiSysHandlerBuilder::new(&net_ctl, &net_ctl).build(rand),
+        ),
     );
 
     let im = InteractionModel::new_with_net_ctl(
@@ -150,7 +163,11 @@ pub async fn factory_reset<C: Crypto>(
     };
     let handler = (
         DEVICE_NODE,
-        endpoints::WifiSysHandlerBuilder::new(&net_ctl, &net_ctl).build(rand),
+        ChainedHandler::new(
+            EpClMatcher::new(Some(1), Some(GroupsHandler::CLUSTER.id)),
+            Async(GroupsHandler::new(Dataver::new(7)).adapt()),
+            endpoints::WifiSysHandlerBuilder::new(&net_ctl, &net_ctl).build(rand),
+        ),
     );
     let im = InteractionModel::new_with_net_ctl(
         matter, crypto, buffers, handler, &kv, &net_ctl, state,
